@@ -22,6 +22,15 @@
 //!                            killed: the process prints NOTRUN for everything that follows and exits)
 //! The callback modes append " cb=<n>:<len>,<after>,<rest>;..." — the arguments of the first 4 callback
 //! invocations (rest = length of `input_at_malformation`) and the number n of invocations.
+//!
+//! Observation modes (the tie of the decoder models of coq/Model/Decoders.v): the callback records EVERY
+//! invocation together with the output String it is handed,
+//!        obs-ignore (continue) | obs-replace (push U+FFFD, continue) | obs-break | obs-breakmsg
+//!        | obs-shrink<K> (output.shrink_to(output.len() + K), continue: the next decoder call starts with
+//!          exactly K spare bytes, so what fits before OutputFull shows in the capacity seen next time)
+//! and the result is followed by " obs=<n>:<len>,<after>,<rest>,<cap>,<delta>;..." with one entry per
+//! invocation: cap = output.capacity(), delta = the characters (code points joined by '.') the output has
+//! gained since the previous invocation returned ("!<whole text>" if it is not an extension).
 #[path = "../common.rs"]
 #[allow(dead_code)]
 mod common;
@@ -104,8 +113,62 @@ fn cb_breakmsg(len: u8, after: u8, input: &[u8], _output: &mut String) -> Contro
     ControlFlow::Break(Cow::Borrowed("custom"))
 }
 
+thread_local! {
+    static OBS: RefCell<(Vec<String>, String, usize)> = const { RefCell::new((Vec::new(), String::new(), 0)) };
+}
+fn obs_enter(len: u8, after: u8, input: &[u8], output: &String) {
+    OBS.with(|o| {
+        let mut o = o.borrow_mut();
+        let delta = match output.strip_prefix(o.1.as_str()) {
+            Some(d) => common::cps(d),
+            None => format!("!{}", common::cps(output)),
+        };
+        o.0.push(format!("{len},{after},{},{},{delta}", input.len(), output.capacity()));
+    });
+}
+fn obs_leave(output: &String) {
+    OBS.with(|o| o.borrow_mut().1 = output.clone());
+}
+fn cb_obs_ignore(len: u8, after: u8, input: &[u8], output: &mut String) -> ControlFlow<Cow<'static, str>> {
+    obs_enter(len, after, input, output);
+    obs_leave(output);
+    ControlFlow::Continue(())
+}
+fn cb_obs_replace(len: u8, after: u8, input: &[u8], output: &mut String) -> ControlFlow<Cow<'static, str>> {
+    obs_enter(len, after, input, output);
+    output.push('\u{FFFD}');
+    obs_leave(output);
+    ControlFlow::Continue(())
+}
+fn cb_obs_shrink(len: u8, after: u8, input: &[u8], output: &mut String) -> ControlFlow<Cow<'static, str>> {
+    obs_enter(len, after, input, output);
+    let k = OBS.with(|o| o.borrow().2);
+    output.shrink_to(output.len() + k);
+    obs_leave(output);
+    ControlFlow::Continue(())
+}
+fn cb_obs_break(len: u8, after: u8, input: &[u8], output: &mut String) -> ControlFlow<Cow<'static, str>> {
+    obs_enter(len, after, input, output);
+    obs_leave(output);
+    ControlFlow::Break(Cow::Borrowed(""))
+}
+fn cb_obs_breakmsg(len: u8, after: u8, input: &[u8], output: &mut String) -> ControlFlow<Cow<'static, str>> {
+    obs_enter(len, after, input, output);
+    obs_leave(output);
+    ControlFlow::Break(Cow::Borrowed("custom"))
+}
+
 fn trap_of(mode: &str) -> Option<YAMLDecodingTrap> {
+    if let Some(k) = mode.strip_prefix("obs-shrink") {
+        let k: usize = k.parse().ok()?;
+        OBS.with(|o| o.borrow_mut().2 = k);
+        return Some(YAMLDecodingTrap::Call(cb_obs_shrink));
+    }
     Some(match mode {
+        "obs-ignore" => YAMLDecodingTrap::Call(cb_obs_ignore),
+        "obs-replace" => YAMLDecodingTrap::Call(cb_obs_replace),
+        "obs-break" => YAMLDecodingTrap::Call(cb_obs_break),
+        "obs-breakmsg" => YAMLDecodingTrap::Call(cb_obs_breakmsg),
         "strict" => YAMLDecodingTrap::Strict,
         "ignore" => YAMLDecodingTrap::Ignore,
         "replace" => YAMLDecodingTrap::Replace,
@@ -141,7 +204,13 @@ fn run_mode(mode: &str, nums: &[u32]) -> String {
     }
     let bytes: Vec<u8> = nums.iter().map(|&b| b as u8).collect();
     let is_cb = mode.starts_with("call-");
+    let is_obs = mode.starts_with("obs-");
     CB_LOG.with(|l| *l.borrow_mut() = (0, Vec::new()));
+    OBS.with(|o| {
+        let mut o = o.borrow_mut();
+        o.0.clear();
+        o.1.clear();
+    });
     let r = common::guard(move || {
         let mut dec = YamlDecoder::read(&bytes[..]);
         let res = match dec.encoding_trap(trap).decode() {
@@ -166,6 +235,9 @@ fn run_mode(mode: &str, nums: &[u32]) -> String {
         let (n, v) = CB_LOG.with(|l| l.borrow().clone());
         let args = v.iter().map(|(a, b, c)| format!("{a},{b},{c}")).collect::<Vec<_>>().join(";");
         format!("{r} cb={n}:{args}")
+    } else if is_obs {
+        let v = OBS.with(|o| o.borrow().0.clone());
+        format!("{r} obs={}:{}", v.len(), v.join(";"))
     } else {
         r
     }
